@@ -219,7 +219,6 @@ Definition opt_i (x:option ident) : option pyexpr := option_map id_ x.
 Definition or_none {A} (f:A -> pyexpr) (x:option A) : pyexpr := match x with Some a => f a | None => PNone end.
 Definition tri_v {A} (f:A -> pyexpr) (t:tri A) : option pyexpr :=
   match t with Keep => None | SetNone => Some PNone | SetTo a => Some (f a) end.
-Definition only_true (d:option bool) : option pyexpr := match d with Some true => Some (PBool true) | _ => None end.
 
 (* _render_server_default *)
 Definition render_server_default (c:cfg) (d:sdefault) : pyexpr :=
@@ -257,11 +256,11 @@ Definition render_constraint (c:cfg) (k:tcons) : option pyexpr :=
       Some (PCall [cfg_sa c; lit "ForeignKeyConstraint"]
         ([PList (map id_ cols); PList (map Sr refcols)]
          ++ kwlist [("name"%string, opt_name c n); ("onupdate"%string, opt_s (truthy_s onupdate)); ("ondelete"%string, opt_s (truthy_s ondelete));
-                    ("initially"%string, opt_s (truthy_s initially)); ("deferrable"%string, only_true deferrable);
+                    ("initially"%string, opt_s (truthy_s initially)); ("deferrable"%string, opt_b deferrable);
                     ("use_alter"%string, when use_alter (PBool true)); ("match"%string, opt_s (truthy_s match_))]))
   | CUq cols n deferrable initially =>
       Some (PCall [cfg_sa c; lit "UniqueConstraint"]
-        (map id_ cols ++ kwlist [("deferrable"%string, only_true deferrable); ("initially"%string, opt_s (truthy_s initially)); ("name"%string, opt_name c n)]))
+        (map id_ cols ++ kwlist [("deferrable"%string, opt_b deferrable); ("initially"%string, opt_s (truthy_s initially)); ("name"%string, opt_name c n)]))
   | CCk sqltext n => Some (PCall [cfg_sa c; lit "CheckConstraint"] ([Sr sqltext] ++ kwlist [("name"%string, opt_name c n)]))
   end.
 Fixpoint somes {A} (l : list (option A)) : list A :=
@@ -320,7 +319,7 @@ Definition render_tbl_op (c:cfg) (hb:bool) (tn:ident) (schema:option ident) (o:t
   | OCreateUnique n cols deferrable initially =>
       PCall [p; lit "create_unique_constraint"]
         (([rname c hb n] ++ tbl ++ [PList (map id_ cols)])
-         ++ kwlist [("deferrable"%string, only_true deferrable); ("initially"%string, opt_s (truthy_s initially)); ("schema"%string, sch)])
+         ++ kwlist [("deferrable"%string, opt_b deferrable); ("initially"%string, opt_s (truthy_s initially)); ("schema"%string, sch)])
   | OCreateFk f =>
       PCall [p; lit "create_foreign_key"]
         (([rname c hb (f_name f)] ++ tbl ++ [id_ (f_referent f); PList (map id_ (f_local f)); PList (map id_ (f_remote f))])
